@@ -297,6 +297,48 @@ def named_like_builtins_tree():
     return tree
 
 
+def sentence(n):
+    """A text of exactly n characters made of short words (wrappable anywhere), not ending in a blank."""
+    words = []
+    k = 0
+    while len(" ".join(words)) < n:
+        words.append(("w%d" % k) if k % 3 else "abc")
+        k += 1
+    s = " ".join(words)[:n]
+    return s if not s.endswith(" ") else s[:-1] + "z"
+
+
+def boundary_tree(W):
+    """Descriptions and help texts whose length sits right at the terminal width: W-8 .. W+1 characters, where a paragraph
+    that is written without wrapping (or wrapped one column late) runs over the edge once the indentation is added."""
+    tree = []
+    for k in range(-1, 9):
+        n = W - k
+        sub = dict(name="sub", aliases=[], kind="plain", desc=sentence(n), help=sentence(n - 1), subs=[], opts=[],
+                   args=[dict(name="item", kind="opt", multi=False, desc=sentence(n), default=None)])
+        tree.append(dict(name="edge%d" % (k + 1), aliases=[], kind="plain", desc=sentence(n), help=sentence(n), subs=[sub],
+                         args=[], opts=[dict(long="level", short="l", mode="req", desc=sentence(n - 3), default=None, prefer="auto")]))
+    return tree
+
+
+def run_boundary(sh, env, rng):
+    for W in (40, 61, 80, 97, 40 + rng.randrange(100)):
+        tree = boundary_tree(W)
+        log = T.HandlerLog()
+        try:
+            app, cfg = T.build_app(tree, env.api, log, default_config=True, name="myapp")
+        except Exception as e:
+            sh.violate("tree-build", {"tree": "boundary-%d" % W}, "valid tree rejected: %r" % (e,))
+            continue
+        for path in [()] + [p for p, n in T.walk(tree)]:
+            names = [x["name"] for x in path]
+            case = {"tree": tree, "page": names, "width": W, "ansi": False, "boundary": True}
+            sh.case(("boundary", W, tuple(names)), True)
+            check_page(sh, env, tree, app, path, W, False, case)
+            sh.count("boundary_pages")
+    sh.tag("text_lengths", "terminal width -8 .. +1")
+
+
 def plan(tier, seed):
     if tier == "quick":
         return [{"n": 30} for _ in range(4)]
@@ -308,6 +350,7 @@ def run(sh, spec):
     env = Env()
     ch = RandomChooser(sh.rng)
     judge_tree(sh, env, named_like_builtins_tree(), sh.rng)
+    run_boundary(sh, env, sh.rng)
     for i in range(spec["n"]):
         tree = T.gen_tree(ch, rich=True)
         judge_tree(sh, env, tree, sh.rng)
